@@ -1,20 +1,30 @@
 #!/bin/bash
-# selftest.sh [ids...] — for every seeded change: apply it to /repo, run the property's quick check, revert.
-# Expects exit 1 with a VIOLATION line, except for seeds recorded as neutralised by a fix (expects exit 0).
-# /repo must be clean and must not be used by anything else while this runs.
+# selftest.sh [seed dirs...] — for every seeded change: apply it, run the property's quick check, revert.
+# Expects exit 1 with a VIOLATION line, except for seeds recorded as neutralised by a fix or as not a violation
+# under our reading (expects exit 0).
+# Default: applies to /repo itself, one seed at a time (/repo must be clean and idle).
+# SELFTEST_PAR=n: n seeds at a time, each in its own scratch worktree (seedrun_wt.sh); /repo untouched.
 cd /verif || exit 2
-fail=0
-for d in ${@:-seeded/*}; do
-  d=${d%/}; id=$(basename "$d"); prop=${id%%-*}
-  det=$(python3 -c "import json;print(json.load(open('$d/meta.json'))['detected_by_quick_check'])")
-  out=$(./seedrun.sh "$d/patch.diff" "$prop" 2>&1); rc=$(echo "$out" | grep -o 'exit=[0-9]*' | tail -1)
+one() {
+  d=${1%/}; id=$(basename "$d"); prop=${id%%-*}
+  det=$(python3 -c "import json;print(json.load(open('$d/meta.json'))['detected_by_quick_check'])" 2>/dev/null)
+  out=$($RUNNER "$d/patch.diff" "$prop" 2>&1); rc=$(echo "$out" | grep -o 'exit=[0-9]*' | tail -1)
   nviol=$(echo "$out" | grep -c '^VIOLATION')
   case "$det" in
     neutralised-by-fix|yes-on-pre-fix-tree|not-a-violation-under-reading) want="exit=0" ;;
     *) want="exit=1" ;;
   esac
-  status=ok; [ "$rc" = "$want" ] || { status=UNEXPECTED; fail=1; }
+  status=ok; [ "$rc" = "$want" ] || status=UNEXPECTED
   printf "%-8s %-28s %-8s violations=%s %s\n" "$id" "$det" "$rc" "$nviol" "$status"
-done
+}
+export -f one
+if [ -n "${SELFTEST_PAR:-}" ]; then
+  export RUNNER=./seedrun_wt.sh VERIF_WORKERS=${VERIF_WORKERS:-6}
+  printf '%s\n' ${@:-seeded/*} | xargs -P "$SELFTEST_PAR" -I{} bash -c 'one {}' | tee /tmp/selftest.$$.out
+else
+  export RUNNER=./seedrun.sh
+  for d in ${@:-seeded/*}; do one "$d"; done | tee /tmp/selftest.$$.out
+fi
+fail=0; grep -q UNEXPECTED /tmp/selftest.$$.out && fail=1; rm -f /tmp/selftest.$$.out
 [ -z "$(git -C /repo status --porcelain --untracked-files=no)" ] || { echo "/repo left dirty"; fail=1; }
 exit $fail
